@@ -118,19 +118,28 @@ fn same(a: &Option<Vec<f64>>, b: &Option<Vec<f64>>) -> bool {
     }
 }
 
+thread_local! {
+    /// build the next events on a brand-new thread each (per-thread state of the library starts from its initial value)
+    static FRESH: std::cell::Cell<bool> = const { std::cell::Cell::new(false) };
+}
+
 fn check_event(ctx: &mut Ctx, cal: &Calib, ev: &Ev, banks: &Banks) {
     ctx.eval();
     let needs: Vec<Need> = ev.wires.iter().map(|(w, s)| cal.wire_need(*w, s.len())).chain(ev.pads.iter().map(|(k, s)| cal.pad_need(*k, s.len()))).collect();
     let must_err = needs.iter().any(|n| *n == Need::MissingNeeded);
     let dontcare = !must_err && needs.iter().any(|n| *n == Need::MissingDontCare);
     let input = || json!({"run": cal.run, "banks": banks.iter().map(|(n, d)| json!([n, hex_short(d)])).collect::<Vec<_>>()});
-    let r = match guard(|| build(cal.run, banks)) {
+    let fresh = FRESH.with(|f| f.get());
+    let r = match if fresh { fresh_thread(|| build(cal.run, banks)) } else { guard(|| build(cal.run, banks)) } {
         Ok(r) => r,
         Err(p) => {
             ctx.panic_violation("MainEvent::try_from_banks", &p, input());
             return;
         }
     };
+    if fresh {
+        ctx.count("events built as the first call of a brand-new thread");
+    }
     match r {
         Err(e) => {
             if must_err {
@@ -274,7 +283,9 @@ fn run(ctx: &mut Ctx) {
         }
         let ev = Ev { wires, suppressed: vec![], pads, ts: i as u32 };
         let banks = banks_of(inv, &ev, rng);
+        FRESH.with(|f| f.set(i % 3 == 1));
         check_event(ctx, cal, &ev, &banks);
+        FRESH.with(|f| f.set(false));
     });
     // ---- injected inconsistencies
     let n = ctx.tier.pick(160, 4000);
@@ -518,7 +529,9 @@ fn run(ctx: &mut Ctx) {
             }
             let ev = Ev { wires, suppressed: vec![], pads, ts: run ^ 5 };
             let banks = banks_of(inv, &ev, rng);
+            FRESH.with(|f| f.set(i % 2 == 1));
             check_event(ctx, cal, &ev, &banks);
+            FRESH.with(|f| f.set(false));
             ctx.count("builds in run sequences across the map epochs");
         }
     });
